@@ -535,7 +535,7 @@ pub fn expect_closed_write<O>(self, mut real_: &mut O, Tracked(mb): Tracked<&mut
 
         match closed_ {
             BufferState::Temp(mut closed_file) => {
-                closed_file.seek(SeekFrom::End(0))?;
+                closed_file.seek(SeekFrom::Start(0))?;
                 copy_temp(&mut closed_file, real_)?;
             }
             BufferState::InMemory(data) => {
@@ -713,6 +713,153 @@ fn driver_never_switched<R: Write, O: Write>(buffer: TempFileBuffer<R>, writer: 
     proof { lemma_same_contents_keeps_proto(last, cl.val().unwrap(), mb.held(), g1); }
     buffer.expect_closed_write(out, Tracked(&mut mb), Tracked(&mut cl), Ghost(g1))?;
     Ok((n, a1))
+}
+
+/// ORDER *: every schedule of whole operations.  While the producer is alive the two threads perform,
+/// in any order and any number, `write(buf)` and `flush()` (producer) and `is_real_file_ready()` and
+/// `switch(dest)` (consumer; the first `Switch` in the schedule is the redirection, later ones are
+/// skipped = "switch is called at most once").  Then the producer drops.  If the schedule contained no
+/// switch the consumer may still switch now (`late_switch`).  Finally the consumer finishes with
+/// `await_real_file` (switched) or `len` + `expect_closed_write(out)` (never switched).
+pub enum Op { Write(Vec<u8>), Flush, Poll, Switch }
+
+/// the buffers of the Write operations of a schedule, in order
+pub open spec fn wbufs(ops: Seq<Op>) -> Seq<Seq<u8>>
+    decreases ops.len(),
+{
+    if ops.len() == 0 { Seq::empty() } else {
+        match ops.last() { Op::Write(b) => wbufs(ops.drop_last()).push(b@), _ => wbufs(ops.drop_last()) }
+    }
+}
+pub open spec fn has_switch(ops: Seq<Op>) -> bool
+    decreases ops.len(),
+{
+    if ops.len() == 0 { false } else { ops.last() is Switch || has_switch(ops.drop_last()) }
+}
+/// acc[i] is a prefix of bufs[i], one chunk per write
+pub open spec fn accepted_seq(acc: Seq<Seq<u8>>, bufs: Seq<Seq<u8>>) -> bool {
+    &&& acc.len() == bufs.len()
+    &&& forall|i: int| 0 <= i < acc.len() ==> (#[trigger] acc[i]).len() <= bufs[i].len() && acc[i] =~= bufs[i].subrange(0, acc[i].len() as int)
+}
+pub proof fn lemma_accepted_push(acc: Seq<Seq<u8>>, bufs: Seq<Seq<u8>>, b: Seq<u8>, n: int)
+    requires accepted_seq(acc, bufs), 0 <= n <= b.len(),
+    ensures accepted_seq(acc.push(b.subrange(0, n)), bufs.push(b)),
+{
+    let a2 = acc.push(b.subrange(0, n));
+    let b2 = bufs.push(b);
+    assert forall|i: int| 0 <= i < a2.len() implies (#[trigger] a2[i]).len() <= b2[i].len() && a2[i] =~= b2[i].subrange(0, a2[i].len() as int) by {
+        if i < acc.len() { assert(a2[i] == acc[i]); assert(b2[i] == bufs[i]); }
+    }
+}
+
+fn driver_any_schedule<R: Write, O: Write>(buffer: TempFileBuffer<R>, writer: TempFileBufferWriter<R>, dest: R, out: &mut O,
+        ops: &Vec<Op>, late_switch: bool, Tracked(mb): Tracked<MbTok<R>>, Tracked(cl): Tracked<ClTok<R>>)
+        -> (r: IoResult<(Option<R>, Ghost<Seq<Seq<u8>>>)>)
+    requires
+        fresh_pair(buffer, writer, mb, cl),
+    ensures
+        
+        r matches Ok(p) ==> accepted_seq(p.1@, wbufs(ops@)),
+        
+        r matches Ok(p) ==> (has_switch(ops@) || late_switch) ==>
+            (p.0 matches Some(d) && d.bytes() =~= dest.bytes() + flat(p.1@) && final(out).bytes() =~= old(out).bytes()),
+        
+        r matches Ok(p) ==> !(has_switch(ops@) || late_switch) ==>
+            (p.0 is None && final(out).bytes() =~= old(out).bytes() + flat(p.1@)),
+{
+    let mut buffer = buffer;
+    let mut writer = writer;
+    let tracked mut mb = mb;
+    let tracked mut cl = cl;
+    let mut pending: Option<R> = Some(dest);
+    let ghost d0 = dest.bytes();
+    let ghost mut g = G { sw: false, d0: Seq::<u8>::empty(), w: Seq::<u8>::empty() };
+    let ghost mut acc = Seq::<Seq<u8>>::empty();
+    let mut i: usize = 0;
+    while i < ops.len()
+        invariant
+            i <= ops@.len(),
+            buffer.real_file.id() == mb.id() && writer.real_file.id() == mb.id(),
+            buffer.closed.id() == cl.id() && writer.closed.id() == cl.id(),
+            
+            cl.val() is None,
+            
+            proto(writer.buffer_state, mb.held(), g),
+            g.w =~= flat(acc),
+            accepted_seq(acc, wbufs(ops@.subrange(0, i as int))),
+            g.sw == has_switch(ops@.subrange(0, i as int)),
+            g.sw ==> pending is None && g.d0 =~= d0,
+            !g.sw ==> pending == Some(dest),
+            d0 =~= dest.bytes(),
+            out.bytes() =~= old(out).bytes(),
+        decreases
+            
+            ops@.len() - i,
+    {
+        proof {
+            let s1 = ops@.subrange(0, i as int + 1);
+            assert(s1.drop_last() =~= ops@.subrange(0, i as int));
+            assert(s1.last() == ops@[i as int]);
+        }
+        match &ops[i] {
+            Op::Write(b) => {
+                let n = writer.write(b.as_slice(), Tracked(&mut mb), Ghost(g))?;
+                proof {
+                    let chunk = b@.subrange(0, n as int);
+                    lemma_flat_push(acc, chunk);
+                    lemma_accepted_push(acc, wbufs(ops@.subrange(0, i as int)), b@, n as int);
+                    acc = acc.push(chunk);
+                    g = g_written(g, chunk);
+                }
+            }
+            Op::Flush => {
+                let ghost before = writer.buffer_state;
+                writer.flush()?;
+                proof { lemma_same_contents_keeps_proto(before, writer.buffer_state, mb.held(), g); }
+            }
+            Op::Poll => {
+                let ready = buffer.is_real_file_ready(Tracked(&mut cl));
+                assert(!ready); 
+            }
+            Op::Switch => {
+                match pending.take() {
+                    Some(d) => {
+                        buffer.switch(d, Tracked(&mut mb), Ghost(writer.buffer_state), Ghost(g));
+                        proof { g = g_switched(g, d0); }
+                    }
+                    None => {}
+                }
+            }
+        }
+        i += 1;
+    }
+    proof { assert(ops@.subrange(0, ops@.len() as int) =~= ops@); }
+    let ghost last = writer.buffer_state;
+    writer.drop(Tracked(&mut cl));
+    let ready = buffer.is_real_file_ready(Tracked(&mut cl));
+    assert(ready); 
+    if late_switch {
+        match pending.take() {
+            Some(d) => {
+                buffer.switch(d, Tracked(&mut mb), Ghost(last), Ghost(g));
+                proof { g = g_switched(g, d0); }
+            }
+            None => {}
+        }
+    }
+    match pending {
+        Some(_dest_never_handed_over) => {
+            let n = buffer.len(Tracked(&mut cl), Ghost(g.w))?;
+            assert(n as int == flat(acc).len()); 
+            proof { lemma_same_contents_keeps_proto(last, cl.val().unwrap(), mb.held(), g); }
+            buffer.expect_closed_write(out, Tracked(&mut mb), Tracked(&mut cl), Ghost(g))?;
+            Ok((None, Ghost(acc)))
+        }
+        None => {
+            let d = buffer.await_real_file(Tracked(&mut mb), Tracked(&mut cl), Ghost(g));
+            Ok((Some(d), Ghost(acc)))
+        }
+    }
 }
 
 } // verus!
